@@ -217,3 +217,11 @@ pub fn confusable_strings(d: u8, thorough: bool) -> Vec<String> {
     }
     out
 }
+
+/// one char of every UTF-8 lead-byte class (first / last of each lead byte that starts a width
+/// class or sits next to a special case: C2, DF, E0, E1, EC, ED (last before the surrogate gap),
+/// EE, EF, F0, F1, F3, F4)
+pub fn lead_byte_sweep() -> Vec<char> {
+    ['\u{80}', '\u{7FF}', '\u{800}', '\u{FFF}', '\u{1000}', '\u{CFFF}', '\u{D000}', '\u{D7FF}', '\u{E000}', '\u{FFFF}',
+     '\u{10000}', '\u{3FFFF}', '\u{40000}', '\u{FFFFF}', '\u{100000}', '\u{10FFFF}'].to_vec()
+}
